@@ -173,6 +173,36 @@ class C05(core.Check):
                 walk(chain + [k], val)
 
         walk([start], text0)
+        # the same conversions as sync composes them: parse(truth file) -> emit into a target file that does not exist yet
+        import os
+        import shutil
+        import tempfile
+
+        d = tempfile.mkdtemp(prefix="c05_")
+        try:
+            P = pj.Project(d)
+            P.function_name = "f"
+            P.write(kind, text0)
+            for target in pj.KINDS:
+                if target == kind:
+                    continue
+                exc, rep, out = P.sync(kind, [k for k in pj.KINDS if k in (kind, target)], "api")
+                tk = "argparse" if target == "argparse_function" else target
+                chain = [start, "sync:" + tk]
+                transitions[0] += 1
+                if exc is not None:
+                    sites.append(site(False, {"chain": ">".join(chain), "hand": version, "field": "convert"}, fail="convert_raise", **core.exc_obs(exc)))
+                    continue
+                txt = P.read(target)
+                states.add((chain[-1], txt))
+                # judged exactly like the in-memory conversion start -> target
+                n0 = len(sites)
+                check([start, tk], txt)
+                for st_ in sites[n0:]:
+                    st_["facts"]["chain"] = ">".join(chain)
+                P.write(target, None)
+        finally:
+            shutil.rmtree(d, ignore_errors=True)
         return (sites, [start, text0], [sorted(states), transitions[0]],
                 {"states": states, "transitions": transitions[0], "traces_validated_against_impl": transitions[0]})
 
